@@ -29,6 +29,16 @@
 (*   "swap-operands"  the operands of every Subtract are swapped           *)
 (*   "dangling"       the value handle of the last Store points past the   *)
 (*                    expression arena                                     *)
+(*   "bad-call-target"  every top-level Call of the entry point targets    *)
+(*                    function handle = number of functions                *)
+(*   "bad-call-arity" every top-level Call gets one argument too many      *)
+(*                                                                         *)
+(* Totality: WFErrors dereferences nothing it has not range-checked, the   *)
+(* contract StaysWellFormed is judged first, and IrSem is not run on a     *)
+(* version that has an ill-formed spot the root does not have (its rows    *)
+(* are "stuck:module version is not well-formed"); IrSem itself never      *)
+(* enters a function that has an ill-formed spot.  So no module a pass can *)
+(* leave behind makes TLC fail.                                            *)
 (***************************************************************************)
 EXTENDS IrSem, Passes, SequencesExt
 
@@ -44,7 +54,9 @@ IsEvent(e) == l <= Len(Trace) /\ Evt.ev = e /\ l' = l + 1
 
 \* ---- seeded faults -------------------------------------------------------
 LastStore(b) == LET s == {i \in 1 .. Len(b) : b[i].k = "Store"} IN IF s = {} THEN 0 ELSE CHOOSE i \in s : \A j \in s : j <= i
-CorruptFn(F) ==
+\* top-level Call statements of a body, rewritten by g
+MapCalls(b, g(_)) == [k \in 1 .. Len(b) |-> IF b[k].k = "Call" THEN g(b[k]) ELSE b[k]]
+CorruptFn(F, nfns) ==
   LET i == LastStore(F.body)
       b1 == IF "drop-store" \in flt /\ i > 0 THEN SubSeq(F.body, 1, i - 1) \o SubSeq(F.body, i + 1, Len(F.body)) ELSE F.body
       j == LastStore(b1)
@@ -53,9 +65,11 @@ CorruptFn(F) ==
             THEN [k \in 1 .. Len(F.exprs) |-> IF F.exprs[k].k = "Binary" /\ F.exprs[k].op = "Subtract"
                                               THEN [F.exprs[k] EXCEPT !.l = F.exprs[k].r, !.r = F.exprs[k].l] ELSE F.exprs[k]]
             ELSE F.exprs
-  IN  [F EXCEPT !.body = b2, !.exprs = ex]
+      b3 == IF "bad-call-target" \in flt THEN MapCalls(b2, LAMBDA c : [c EXCEPT !.f = nfns]) ELSE b2
+      b4 == IF "bad-call-arity" \in flt THEN MapCalls(b3, LAMBDA c : [c EXCEPT !.args = Append(@, 0)]) ELSE b3
+  IN  [F EXCEPT !.body = b4, !.exprs = ex]
 Corrupt(v, M) == IF flt = {} \/ v = 0 THEN M
-                 ELSE [M EXCEPT !.eps = [i \in 1 .. Len(M.eps) |-> [M.eps[i] EXCEPT !.fn = CorruptFn(M.eps[i].fn)]]]
+                 ELSE [M EXCEPT !.eps = [i \in 1 .. Len(M.eps) |-> [M.eps[i] EXCEPT !.fn = CorruptFn(M.eps[i].fn, Len(M.fns))]]]
 
 ModuleOf(v) == Corrupt(v, Trace[line[v + 1]].m)
 
@@ -94,7 +108,9 @@ TraceRun ==
   /\ LET v == Evt.v
          P == Prep(ModuleOf(v))
          errs == WFErrors(P)
-         rs == Force([r \in 1 .. Len(Evt.rows) |-> RunI(P, Evt.ep, Evt.bufs, Evt.rows[r])])    \* each row is run once
+         runnable == v = 0 \/ errs \subseteq wf[1]        \* nothing ill-formed that the root did not have
+         rs == IF runnable THEN Force([r \in 1 .. Len(Evt.rows) |-> RunI(P, Evt.ep, Evt.bufs, Evt.rows[r])])    \* each row is run once
+               ELSE Force([r \in 1 .. Len(Evt.rows) |-> [ok |-> FALSE, why |-> "stuck:module version is not well-formed", out |-> <<>>, mask |-> <<>>]])
          expBad == IF Evt.exp = <<>> THEN <<>>
                    ELSE SelectSeq([r \in 1 .. Len(rs) |->
                           IF rs[r].ok /\ Evt.exp[r].ok = 1 /\ MaskedDiff(Evt.exp[r].out, Evt.exp[r].mask, rs[r].out) # {}
